@@ -19,7 +19,7 @@ func (Engine) Name() string { return "E4-store" }
 
 // Runs implements core.Engine.
 func (Engine) Runs(prop, tier string) int {
-	quick := map[string]int{"C19": 24000, "C09": 100000}[prop]
+	quick := map[string]int{"C19": 16000, "C09": 60000}[prop]
 	if tier == "thorough" {
 		return quick * 40
 	}
@@ -47,7 +47,7 @@ func (Engine) Describe(prop string) core.Description {
 			"SetType on a non-empty collection installs a type whose same-named fields keep their definitions",
 			"'well-typed' for Add: the value's Go type is exactly the Go type of the collection's field of that name",
 		}
-		d.Probes = []string{"add-same", "add-narrower", "add-wider", "add-conflicting", "add-wrapped", "add-duplicate-id", "remove-first", "remove-middle", "remove-last", "remove-absent", "remove-duplicate-id", "addattr-duplicate", "settype-nonempty", "caller-set-after-add", "field-added-after-store", "lazy-read-back"}
+		d.Probes = []string{"add-same", "add-narrower", "add-wider", "add-conflicting", "add-wrapped", "add-duplicate-id", "remove-first", "remove-middle", "remove-last", "remove-absent", "remove-duplicate-id", "addattr-duplicate", "settype-nonempty", "caller-set-after-add", "field-added-after-store", "lazy-read-back", "bulk-add-phase", "bulk-drain-phase"}
 	case "C09":
 		d.Real = append(d.Real, "jsonapi.Range, jsonapi.Filter.IsAllowed, jsonapi.Resources, jsonapi.WrapperCollection")
 		d.Stub = append(d.Stub, "reference select -> filter evaluator -> rank check -> page slice (written from the statements of C09/C10)")
@@ -59,7 +59,7 @@ func (Engine) Describe(prop string) core.Description {
 			"filter values are of the Go type of the field (the property says well-typed); 'in' is generated for string-valued fields, 'has' for to-many relationships",
 			"sort and filter semantics are sampled, not enumerated; what simulation contributes is the store states the queries run on and the untouched-input clause",
 		}
-		d.Probes = []string{"range-on-softcollection", "range-on-resources-of-wrappers", "range-on-wrappercollection", "sort-by-uint64", "sort-by-bytes", "sort-nil-present", "sort-ties-without-id", "filter-bytes-order", "filter-nil-operand", "filter-unknown-op", "filter-and-or", "page-beyond-end", "size-zero", "ids-subset", "pages-partition-checked", "permuted-order-checked"}
+		d.Probes = []string{"range-on-softcollection", "range-on-resources-of-wrappers", "range-on-wrappercollection", "sort-by-uint64", "sort-by-bytes", "sort-nil-present", "sort-ties-without-id", "filter-bytes-order", "filter-nil-operand", "filter-unknown-op", "filter-and-or", "page-beyond-end", "size-zero", "ids-subset", "pages-partition-checked", "permuted-order-checked", "earlier-page-reread", "range-over-earlier-page"}
 	}
 
 	return d
@@ -84,6 +84,9 @@ type sim struct {
 	nextID  int
 	nops    int
 	nadds   int
+	prev    *prevPage
+	// bulkLeft > 0: a bulk phase happened; counts the steps left before the run ends
+	bulkLeft int
 	fresh   int
 	unique  bool // never add a duplicate ID (C09's domain)
 }
@@ -118,7 +121,8 @@ func (s *sim) drawFields(n int) []field {
 	return fs
 }
 
-var fieldNames = []string{"a", "b", "c", "d", "e", "f", "g", "h", "k", "m", "n", "p", "q", "r", "s", "t", "u", "v", "w", "x", "y", "z"}
+// (names with a separator, so that joining an ID and a name with it is ambiguous)
+var fieldNames = []string{"a", "b", "c", "d", "e", "f", "g", "h", "k", "m", "n", "p", "q", "r", "s", "t", "u", "v", "w", "x", "y", "z", "a:b", "b:c", "a.b", "a_b", "A"}
 
 func (s *sim) fieldName(taken map[string]bool) string {
 	for {
@@ -133,6 +137,16 @@ func (s *sim) fieldName(taken map[string]bool) string {
 			return n
 		}
 	}
+}
+
+func (s *sim) hasID(id string) bool {
+	for _, r := range s.m.recs {
+		if r.ID == id {
+			return true
+		}
+	}
+
+	return false
 }
 
 func (s *sim) takenNames() map[string]bool {
@@ -248,6 +262,12 @@ func (s *sim) run() *core.Violation {
 	}
 
 	for i := 0; i < maxOps && t.More(stop); i++ {
+		if s.bulkLeft > 0 {
+			if s.bulkLeft--; s.bulkLeft == 0 {
+				break
+			}
+		}
+
 		desc, v, skip := s.step()
 		if v != nil {
 			return v
@@ -261,6 +281,14 @@ func (s *sim) run() *core.Violation {
 		s.st.Steps++
 		pending = desc
 
+		// Range is the store's read path: it is issued whether or not the checker
+		// has just read the store back (the model says what the store holds)
+		if s.prop == "C09" && len(s.m.recs) >= 1 && t.Bool(1, 3) {
+			if v := s.rangeQuery(); v != nil {
+				return v
+			}
+		}
+
 		if s.nops%every != 0 {
 			continue
 		}
@@ -273,12 +301,6 @@ func (s *sim) run() *core.Violation {
 
 		if s.prop == "C19" {
 			s.st.State(core.HashString(s.m.describe()))
-		}
-
-		if s.prop == "C09" && len(s.m.recs) >= 1 && t.Bool(1, 3) {
-			if v := s.rangeQuery(); v != nil {
-				return v
-			}
 		}
 	}
 
@@ -385,6 +407,14 @@ func (s *sim) drawAddSpec() (*world.ResSpec, string) {
 		s.nextID++
 		id = fmt.Sprintf("%s%d", []string{"r", "R", "é", "0"}[t.Draw(4)], s.nextID)
 
+		// an ID that extends an earlier one by a separator and a letter (unique all the same)
+		if len(s.m.recs) > 0 && t.Bool(1, 8) {
+			ext := s.m.recs[t.Draw(len(s.m.recs))].ID + []string{":a", ".a", "_a", ":b"}[t.Draw(4)]
+			if ext != "" && !s.hasID(ext) {
+				id = ext
+			}
+		}
+
 		if !s.unique && t.Bool(1, 12) {
 			id = ""
 		}
@@ -412,6 +442,64 @@ func (s *sim) drawFieldsAvoiding(n int, taken map[string]bool) []field {
 // step performs one operation on the real collection and on the model.
 func (s *sim) step() (desc string, v *core.Violation, skip bool) {
 	t := s.t
+
+	if (s.bulkLeft == 0 && t.Bool(1, 120)) || (s.bulkLeft > 0 && len(s.m.recs) >= 33 && t.Bool(1, 3)) {
+		// a bulk phase: grow the collection well past 32 elements, or drain it to a
+		// quarter, in one step (backing-array growth / shrink paths). A big store
+		// makes every step expensive: the run ends ten steps after the first phase.
+		grow := s.bulkLeft == 0 && (len(s.m.recs) < 33 || t.Bool(1, 2))
+
+		if s.bulkLeft == 0 {
+			s.bulkLeft = 10
+		}
+
+		if grow {
+			n := t.Range(30, 45)
+
+			for i := 0; i < n; i++ {
+				rs, _ := s.drawAddSpec()
+
+				var res jsonapi.Resource
+
+				if p := core.Call(func() {
+					typ, err := rs.Type.SoftType()
+					if err != nil {
+						panic(core.HarnessBug{Value: "SoftType: " + err.Error()})
+					}
+
+					res = rs.Soft(typ)
+					s.col.Add(res)
+				}); p != nil {
+					return "bulk Add", viol(s.prop, "no-panic", p.Func, "bulk-add:"+p.Class, "Add panicked during a bulk phase: %s", p.Value), false
+				}
+
+				s.m.add(rs)
+				s.nadds++
+			}
+
+			s.st.Inc("probe:bulk-add-phase")
+			t.Logf("bulk phase: %d resources added, %d stored", n, len(s.m.recs))
+
+			return "bulk Add", nil, false
+		}
+
+		target := len(s.m.recs) / 4
+
+		for len(s.m.recs) > target {
+			id := s.m.recs[t.Draw(len(s.m.recs))].ID
+
+			if p := core.Call(func() { s.col.Remove(id) }); p != nil {
+				return "bulk Remove", viol(s.prop, "no-panic", p.Func, "bulk-remove:"+p.Class, "Remove panicked during a bulk phase: %s", p.Value), false
+			}
+
+			s.m.remove(id)
+		}
+
+		s.st.Inc("probe:bulk-drain-phase")
+		t.Logf("bulk phase: drained to %d stored", len(s.m.recs))
+
+		return "bulk Remove", nil, false
+	}
 
 	switch op := t.Draw(20); {
 	case op < 8: // Add
